@@ -13,7 +13,7 @@ L = env.lib()
 ID = "C12"
 LEVEL = "fault_enumeration"
 RULE = ("Complete single-fault sweep: for each of 12 scenarios (connect-with-auth, shell, stat, list, pull, push, abandoned stream, in several orders) x every index k of its transport-call "
-        "sequence x every applicable fault kind in {read raises timeout, read raises ConnectionResetError, EOF from k on, short read then raise, write raises BrokenPipeError, partial write then raise, "
+        "sequence x every applicable fault kind in {read raises timeout, read raises ConnectionResetError, EOF from k on, short read then raise, short read then EOF, write raises BrokenPipeError, partial write then raise, "
         "write raises timeout, connect refused} x recovery variant {close()+connect(), connect() only} x both APIs; thorough adds Hypothesis-sampled fault pairs (second fault inside the recovery). "
         "Oracle: the faulted call raises or returns the model's value; then, with Lock rebound to a lock that fails instead of blocking when already held, close() completes, connect() to a fresh healthy "
         "simulator returns True and the whole scenario replayed gives exactly the model's results; Watchdog = non-termination. Non-trivial: fault strictly inside an operation (not its first call). "
@@ -51,7 +51,7 @@ SCENARIOS = {
     "exec,list,shell": (DEV, CONN, [EX, LS, SH]),
     "auth+push,stat": (dict(DEV, **AUTH), CONN_AUTH, [PS, ST]),
 }
-R_KINDS = ["r_timeout", "r_reset", "eof", "r_short_raise"]
+R_KINDS = ["r_timeout", "r_reset", "eof", "r_short_raise", "r_short_eof"]
 W_KINDS = ["w_pipe", "w_partial_raise", "w_timeout"]
 C_KINDS = ["c_refuse"]
 
